@@ -35,7 +35,7 @@ func main() {
 			"skip-round-trip is only requested on non-CONNECT requests (a CONNECT has no HTTP round trip to skip; martian dials the tunnel target regardless)",
 			"hijacking modifiers are only attached to requests without a body, so that no unread request body is pending when the session is hijacked",
 			"'no further reads' is decided on bytes consumed from the client socket after the hijacker returned (the client sends a complete follow-up request), 'closes it' on the proxy calling Close on the socket it was given, both at quiescence",
-			"'once the exchange ends' is sampled when the request modifier runs for the next request of the same connection (previous non-CONNECT request) and at quiescence after all connections ended",
+			"'once the exchange ends' is sampled when the request modifier runs for the next request of the same connection (previous non-CONNECT request), when the client has received the complete response and the proxy is blocked reading the idle connection again (non-CONNECT exchanges), and after all connections ended and every handler goroutine returned",
 			"blind CONNECT tunnels carry no payload here (tunnel transparency is C04's subject); the tunnel is torn down by closing both ends",
 		},
 		RaceFiles: []string{"proxy.go", "context.go", "/mitm/"},
@@ -67,6 +67,7 @@ type exch struct {
 	B string `json:"b"`           // pass mutate reqerr reserr botherr skip hijackreq hijackres
 	O string `json:"o"`           // upstream outcome: ok dialfail drop none
 	N int    `json:"n,omitempty"` // POST body size
+	A bool   `json:"a,omitempty"` // the request modifier also marks the exchange as an API request (Context.APIRequest)
 	E string `json:"e,omitempty"` // shape of the modifier error text: "" one line | multi (two errors joined by a line break) | quoted
 }
 
@@ -135,7 +136,7 @@ func genCase(rng *rand.Rand, stream string, idx int, race bool) c02Case {
 		if b != "reqerr" && b != "reserr" && b != "botherr" {
 			return ""
 		}
-		return []string{"", "", "multi", "multi", "quoted"}[rng.Intn(5)]
+		return []string{"", "", "multi", "multi", "quoted", "eof", "closedpipe", "timeout"}[rng.Intn(8)]
 	}
 	n := 1 + rng.Intn(4)
 	if rng.Intn(4) == 0 {
@@ -173,6 +174,9 @@ func genCase(rng *rand.Rand, stream string, idx int, race bool) c02Case {
 		get := func() exch {
 			e := exch{X: newX(), M: "GET", B: pickBeh(rng, allowHij, true)}
 			e.E = errKind(e.B)
+			if (e.B == "skip" && rng.Intn(100) < 40) || (e.B != "skip" && rng.Intn(100) < 8) {
+				e.A = true
+			}
 			switch e.B {
 			case "skip", "hijackreq":
 				e.O = "none"
@@ -283,6 +287,8 @@ type xobs struct {
 	typ       string
 	e         exch
 	sent      bool
+	idleSeen  bool // the proxy was observed parked reading the next request after this exchange's response
+	idleLive  bool // ... and the exchange's context was still retrievable then
 	resp      *modx.Resp
 	cerr      error
 }
@@ -310,6 +316,7 @@ func actionFor(e exch, srv *modx.SrvConn) *modx.Action {
 	a := modx.NewAction()
 	a.Srv = srv
 	a.ErrKind = e.E
+	a.API = e.A
 	switch e.B {
 	case "mutate":
 		a.Mutate = true
@@ -398,6 +405,17 @@ func runConn(g *modx.Rig, ci int, cs connSpec, out *connOut) {
 		o.resp, o.cerr = resp, err
 		if err != nil {
 			return
+		}
+		if e.M != "CONNECT" {
+			// The response has been received completely. Once the proxy has consumed
+			// everything sent so far and is blocked reading the socket again, it is
+			// waiting for the next request: the exchange has ended.
+			if cl.AwaitIdle() {
+				o.idleSeen = true
+				if rq := g.Rec.ReqOf(e.X); rq != nil && martian.NewContext(rq) != nil {
+					o.idleLive = true
+				}
+			}
 		}
 		if e.M == "CONNECT" && resp.Status == 200 {
 			switch cs.Mode {
@@ -667,6 +685,12 @@ func runCase(r *vh.Run, ca *modx.CA, c c02Case) {
 				return m
 			}
 			r.Eval(1)
+			if xo.idleSeen {
+				r.Count("idle_connection_context_checks", 1)
+			}
+			if xo.idleLive {
+				r.Violation("C02:context-released:idle-connection", "the exchange's context was still retrievable after its response had been received and the proxy was already waiting for the next request on the open connection", wit(nil))
+			}
 			var rq, rs []modx.Call
 			for _, cc := range byX[e.X] {
 				if cc.Side == "req" {
@@ -707,6 +731,9 @@ func runCase(r *vh.Run, ca *modx.CA, c c02Case) {
 				lk = c.Lst
 			}
 			r.Class(fmt.Sprintf("listener-%s/%s/%s", lk, xo.typ, e.B))
+			if e.A {
+				r.Class(fmt.Sprintf("api-marked/%s/%s/%s", xo.typ, e.B, e.O))
+			}
 			if e.B == "reqerr" || e.B == "reserr" || e.B == "botherr" {
 				ek := "line"
 				if e.E != "" {
